@@ -106,6 +106,11 @@ func ReadFrame(r io.Reader) (f Frame, err error) {
 
 	if f.Header.Length > 0 {
 		f.Payload, err = readPayload(r, f.Header.Length)
+		if err == io.EOF {
+			// The header is read, thus stream ended inside the frame even
+			// when no payload byte was received.
+			err = io.ErrUnexpectedEOF
+		}
 	}
 
 	return f, err
